@@ -109,10 +109,35 @@ def call_groups(b):
     return groups
 
 
-def run_unit(unit_dir, tag, tier, want_neg=True, only_part=None):
+def part_carries(unit_dir, u, part, prop):
+    """does this part own a function with an obligation of `prop` (function props or clause tags)?"""
+    from vlib.splice import parse_clauses
+    cl = os.path.join(unit_dir, "clauses.txt")
+    if not os.path.exists(cl):
+        return True
+    try:
+        specs = parse_clauses(open(cl).read(), u["id"])
+    except Exception:
+        return True
+    for fs in specs:
+        if fs.path not in part["bodies"]:
+            continue
+        props = fs.props or u.get("properties", [])
+        if prop in props and not any(c.tags for c in fs.clauses):
+            return True
+        if any(prop in (c.tags or props) for c in fs.clauses if not c.cid.startswith("_")):
+            return True
+    return False
+
+
+def run_unit(unit_dir, tag, tier, want_neg=True, only_part=None, prop=None):
     """Build + verify one unit (all its parts). Returns a list of result dicts, one per part."""
     u = B.load_unit(unit_dir)
     parts = u.get("part") or [None]
+    if prop is not None and parts != [None] and only_part is None:
+        keep = [pt for pt in parts if part_carries(unit_dir, u, pt, prop)]
+        if keep:
+            parts = keep
     out = []
     with cf.ThreadPoolExecutor(max_workers=max(1, len(parts))) as ex:
         futs = [ex.submit(run_part, unit_dir, tag, tier, want_neg, pt) for pt in parts
@@ -122,7 +147,7 @@ def run_unit(unit_dir, tag, tier, want_neg=True, only_part=None):
     # every function stubbed in one part must have its body verified in another part
     if parts != [None] and only_part is None:
         verified = set()
-        for pt in parts:
+        for pt in (u.get("part") or []):
             verified |= set(pt["bodies"])
         for r in out:
             b = r["built"]
@@ -345,7 +370,7 @@ def check_property(prop, tier, quiet=False):
         return 2
     results = []
     with cf.ThreadPoolExecutor(max_workers=max(1, min(len(units), 8))) as ex:
-        futs = [ex.submit(run_unit, u["_dir"], prop, tier) for u in units]
+        futs = [ex.submit(run_unit, u["_dir"], prop, tier, True, None, prop) for u in units]
         for f in futs:
             results.extend(f.result())
 
@@ -576,8 +601,36 @@ def cmd_setup(args):
     ok = bool(r.json and r.json.get("verification-results", {}).get("success"))
     print("verus warm-up:", "ok" if ok else "FAILED", "%.1fs" % r.wall)
     rc = 0 if ok else 2
+    for msg in lint_tags():
+        print("LINT:", msg)
+        rc = 2
     rc = max(rc, X.setup())
     return rc
+
+
+def lint_tags():
+    """every property tag used by a clause of a unit must be listed in the unit's `properties`
+    (otherwise the clause would never be checked under that property)"""
+    from vlib.splice import parse_clauses
+    out = []
+    for u in all_units().values():
+        cl = os.path.join(u["_dir"], "clauses.txt")
+        tags = set()
+        if os.path.exists(cl):
+            for fs in parse_clauses(open(cl).read(), u["id"]):
+                tags |= set(fs.props)
+                for c in fs.clauses:
+                    tags |= set(c.tags)
+        pre = os.path.join(u["_dir"], "prelude.rs")
+        if os.path.exists(pre):
+            for mt in re.finditer(r"//@ID\s+\S+\s*:\s*([A-Z0-9 ]+)", open(pre).read()):
+                tags |= set(mt.group(1).split())
+        if u.get("library"):
+            continue
+        missing = tags - set(u.get("properties", []))
+        if missing:
+            out.append("%s: tags %s are not in the unit's properties" % (u["id"], sorted(missing)))
+    return out
 
 
 def cmd_ledger(args):
